@@ -102,8 +102,9 @@ def c01_clauses(structure, pattern, atol, result):
     bad = []
     idx, pos, quats = result
     n = len(structure)
-    els = list(structure.elements)
-    pels = list(pattern.elements)
+    from vmon.oracle.util import elements_of
+    els = elements_of(structure)
+    pels = elements_of(pattern)
     ppos = np.asarray(pattern.positions, float)
     cell = np.asarray(structure.cell, float)
     if len(idx) != len(pos) or len(idx) != len(quats):
